@@ -4,5 +4,7 @@ extern "C" int LLVMFuzzerTestOneInput(const uint8_t* data, size_t size) {
   std::string bytes(reinterpret_cast<const char*>(data), size);
   consume::Result r = consume::reader(bytes);
   if (r.non_std) __builtin_trap();
+  consume::Result l = consume::reuse_block_object(bytes);   // lower-level API: one block object for all blocks, drained after a failed read
+  if (l.non_std) __builtin_trap();
   return 0;
 }
